@@ -107,5 +107,9 @@ def check(prog: Program, rep):
     from rules.c11 import naming_rule
     augmentation_guards(prog, rep, "C01.R6")
     naming_rule(prog, rep, "C01.R6")
+    # the greedy route: peeled paths run between sources and sinks of the caller's graph only while the working graph keeps its topology (C17.R5)
+    from rules.c17 import peeling_rule as _peel
+    from rules.common import RuleProxy as _RPp
+    _peel(prog, _RPp(rep, "C01.R6"), "C17.R5")
     from rules.providers import given_weights_nonnegative
     given_weights_nonnegative(prog, rep, "C01.R7", ["kFlowDecomp", "kLeastAbsErrors", "kMinPathError"])
